@@ -203,7 +203,7 @@ pub fn execute(p: &P, ops: &[(u64, Op)], seed: u64) -> RunOut {
                     }
                 }
                 Op::Stall { node, ms } => {
-                    w.stalled_until[World::idx(*node)] = w.now + ms * MS;
+                    { let i = World::idx(*node); w.stalled_until[i] = w.stalled_until[i].max(w.now + ms * MS); }
                     w.stats.inc("fault_stall");
                 }
                 Op::Gossip { node } => {
